@@ -42,23 +42,59 @@ CHECKS = {
    technique="runtime monitoring: metamorphic monitor - all spellings (splits, digits moved to the exponent, leading fraction zeros, 0..40 trailing zeros) of one value must return identical bits",
    text="Exploration: for each base value every re-splitting is executed in all configurations; distinct internal (mantissa, exponent, truncated) routes per value are counted from hooks to show the spellings really took different paths; 1/8 of the classes are anchored to the exact oracle.",
    note="Metamorphic; absolute correctness comes from the anchor sample and C01/C02."),
+ "C08": dict(engine="eng_mem", ref="DESIGN.md §9 C08, §6",
+   technique="sanitizers / UB interpreter: Miri (Stacked Borrows and Tree Borrows, optimised and debug-assertion profiles), AddressSanitizer and valgrind memcheck watching parse_float on arbitrary bytes; differential against the native run",
+   text="Exploration under memory monitors: arbitrary byte strings (every byte value, lengths around every cut-off, any exponent) plus valid inputs aimed at each unchecked-index site are executed under Miri in both aliasing models and under ASan (valgrind in thorough); any Undefined Behaviour / sanitizer report with a frame in the crate is a violation, a clean panic is allowed and counted. Evidence lists executions per tool.",
+   note="Decided for the paths reached, under each tool's model; Miri executes 10^3-10^5 cases, ASan/valgrind 10^6+ but are blind to intra-object overflow."),
+ "C11": dict(engine="eng_moderate", ref="DESIGN.md §9 C11",
+   technique="runtime monitoring: exact interval oracle on direct calls of the extended-precision stage (Eisel-Lemire / Bellerophon) over number-theoretic worst cases, boundary prefixes, ties and table/early-out limits",
+   text="Exploration with deciding oracle on the stage itself: (w, q, truncated) triples incl. the complete continued-fraction corpus (distance to a rounding boundary down to 2^-120), every definite answer checked against w*10^q and, when truncated, the whole interval [w, w+1)*10^q; branch coverage of the stage (second product, tie-to-even, subnormal, w/w+1 disagreement, Bellerophon error check) comes from hooks and is required.",
+   note="Same oracle as C01; truncated is combined only with 1 <= w <= u64::MAX-1."),
+ "C12": dict(engine="eng_bigint", ref="DESIGN.md §9 C12",
+   technique="runtime monitoring: reference-model monitor (independent big naturals) after every big-integer operation on both storage back-ends, incl. success/failure against the capacity; Miri slice compared with the native run",
+   text="Exploration: millions of single operations with explicit operands sized to land at 60..64 limbs, all powers 0..1720, all shift counts, sticky bit at every depth; each result (value, length, Some/None/panic) compared with schoolbook reference arithmetic; a lean slice runs under Miri SB/TB.",
+   note="Reference naturals are the harness' own (also used by the value oracle, cross-checked against Python)."),
+ "C13": dict(engine="eng_bigint", ref="DESIGN.md §9 C13",
+   technique="runtime monitoring: executable sequence model checked after every operation of random operation histories on StackVec / HeapVec, natively and under Miri (Stacked + Tree Borrows)",
+   text="Exploration over histories: many short histories (20..400 operations) that fill to capacity, hover and drain; length, contents, return values, failed-operation-changes-nothing, numeric ordering are compared with a plain-sequence model after every step; the same histories run under Miri where reads of never-written slots or out-of-range writes are Undefined Behaviour reports.",
+   note="Numeric ordering judged on normalized vectors; heap histories stay <= 62 limbs in debug-assertion builds."),
+ "C14": dict(engine="eng_consts", ref="DESIGN.md §9 C14",
+   technique="runtime monitoring, complete enumeration: the running program of each configuration dumps every power constant it sees (table, u64::pow, std powf, bundled libm); an offline Python checker recomputes each definition",
+   text="Complete enumeration of a finite set (exhaustive: true): 651 128-bit Eisel-Lemire entries and the exponent map for every q, all small integer and float powers as returned at run time, 5^135, all Bellerophon entries with exponents, in 8 configurations.",
+   note="Float powers are decided for this platform's libm and the bundled libm as compiled here."),
+ "C15": dict(engine="eng_pure", ref="DESIGN.md §9 C15",
+   technique="runtime monitoring: counting #[global_allocator] armed exactly around each parse_float call; sensitivity control in alloc configurations",
+   text="Exploration: tens of millions of monitored calls covering every internal path class (required from hooks) in default, compact and no_std configurations, both profiles; any allocator event inside a call is a violation; alloc builds must show events on every big-integer call or the run is inconclusive.",
+   note="All Rust heap allocation goes through the global allocator."),
+ "C16": dict(engine="eng_pure", ref="DESIGN.md §9 C16",
+   technique="runtime monitoring: differential monitor over iterator shapes / buffer addresses / stack poisoning / call history / concurrent callers; Miri data-race and uninitialised-read detection on sampled schedules; ThreadSanitizer in thorough",
+   text="Exploration: each input is parsed through 8 iterator shapes, from differently aligned buffers, after stack poisoning and other parses, and from 3..64 threads; results and hook traces must equal the plain sequential slice-iterator run; Miri runs the same engine with several scheduler seeds, TSan in thorough.",
+   note="Schedules are sampled, not enumerated."),
+ "C17": dict(engine="eng_float", ref="DESIGN.md §9 C17",
+   technique="runtime monitoring, complete enumeration for f32: all 2^32 bit patterns (and structured + random f64 patterns) checked against IEEE-754 field extraction and an exact hardware recomputation of mantissa x 2^exponent",
+   text="Exhaustive for f32 (flag set by the run when all shards completed), sampled for f64: is_denormal, exponent, mantissa, to/from bits, b/bh, extended_to_float against an oracle written from the standard.",
+   note="x86_64 SSE2 semantics."),
+ "C18": dict(engine="eng_float", ref="DESIGN.md §9 C18",
+   technique="runtime monitoring: independent exact integer rounding as oracle for round()/round_nearest_tie_even/round_down + extended_to_float over every exponent and all guard-bit classes; mask helpers for all widths",
+   text="Exploration with deciding oracle: every biased exponent in the stated range x significand pattern classes x three variants, the exact halfway pattern for every subnormal shift, random pairs; the integer reference is cross-checked by the decimal oracle on a sample.",
+   note="Domain as the property states (shifts <= 64; truncating variant judged below 2^(emax+1))."),
+ "C19": dict(engine="eng_front", ref="DESIGN.md §9 C19",
+   technique="runtime monitoring: reference scanner (from the grammar) + exact rounding oracle observing all seven shipped front-end copies on grammar-directed, mutated and random byte strings; panic monitor",
+   text="Exploration: the copies are compiled from the working tree; (value bits incl. sign, remaining suffix) of each copy must equal the reference on millions of strings incl. absurd exponents, missing parts, special literals in any case and arbitrary bytes.",
+   note="NaN judged as 'is NaN'; copies that cannot be located are reported as not examined (inconclusive), never as passing."),
 }
 
-NOT_YET = {
- "C08": "check under construction in this session (Miri/ASan/valgrind engine eng_mem); will be claimed when it exists",
- "C11": "check under construction (eng_moderate)",
- "C12": "check under construction (eng_bigint)",
- "C13": "check under construction (eng_bigint)",
- "C14": "check under construction (eng_consts)",
- "C15": "check under construction (allocation monitor)",
- "C16": "check under construction (purity / concurrency engine)",
- "C17": "check under construction (eng_float)",
- "C18": "check under construction (eng_float)",
- "C19": "check under construction (eng_front)",
-}
+NOT_YET = {}
 
 ENGINES = {
  "eng_parse": ("harness/src/bin/eng_parse.rs", "public-API engine: generators + exact oracle + hook sink + panic monitor; one process per shard"),
+ "eng_moderate": ("harness/src/bin/eng_moderate.rs", "direct calls of the extended-precision stage with the interval oracle"),
+ "eng_bigint": ("harness/src/bin/eng_bigint.rs", "single big-integer operations vs reference naturals; vector operation histories vs a sequence model; lean mode for Miri"),
+ "eng_consts": ("harness/src/bin/eng_consts.rs", "dumps every power constant the running configuration sees; judged by pyoracle/consts.py"),
+ "eng_float": ("harness/src/bin/eng_float.rs", "Float helpers over all f32 patterns; rounding primitive vs exact integer rounding"),
+ "eng_front": ("harness/src/bin/eng_front.rs", "the seven shipped front-end copies (prepared by harness/build.rs) vs a reference scanner + oracle"),
+ "eng_mem": ("harness/src/bin/eng_mem.rs", "oracle-free arbitrary-bytes driver for Miri / ASan / valgrind"),
+ "eng_pure": ("harness/src/bin/eng_pure.rs", "allocation monitor and purity/concurrency differential; runs natively, under Miri and TSan"),
 }
 
 def main():
